@@ -647,7 +647,7 @@ func (g *Graph) HoldsAt(loc Loc, rel Rel) bool {
 				if !((t == rel.X && cse == rel.Y) || (t == rel.Y && cse == rel.X)) || !opImplies(op, rel.Op) {
 					continue
 				}
-			} else if !condImplies(g.expandBoolLocal(info.Cond), info.Val, rel) {
+			} else if !condImplies(g.expandPredicateCall(g.expandBoolLocal(info.Cond)), info.Val, rel) {
 				continue
 			}
 			s := b.Succs[si]
